@@ -31,12 +31,21 @@ def ri(rng, shape, lo=-3, hi=3, dtype=torch.float64, nonzero=False):
     return torch.tensor(vals, dtype=dtype).reshape(shape)
 
 
-def psd_int(rng, batch, n, dtype, rank=None, shift=None):
-    """R Rᵀ + c I with integer R (n×rank) — PD when c > 0."""
+def psd_int(rng, batch, n, dtype, rank=None, shift=None, min_gap=0.05):
+    """R Rᵀ + c I with integer R (n×rank) — PD when c > 0.  Regenerated until every batch member has
+    well separated eigenvalues (relative gap ≥ min_gap), so that Lanczos / CG based paths are robust."""
     rank = n if rank is None else rank
-    r = ri(rng, (*batch, n, rank), -2, 2, dtype)
-    c = rng.randint(1, 3) if shift is None else shift
-    return r @ r.mT + c * torch.eye(n, dtype=dtype)
+    for _ in range(200):
+        r = ri(rng, (*batch, n, rank), -2, 2, dtype)
+        c = rng.randint(1, 3) if shift is None else shift
+        a = r @ r.mT + c * torch.eye(n, dtype=dtype)
+        if n == 1 or not min_gap:
+            return a
+        ev = torch.linalg.eigvalsh(a.double())
+        gap = (ev[..., 1:] - ev[..., :-1]).min() / ev.max()
+        if float(gap) >= min_gap:
+            return a
+    return a
 
 
 def kron(a, b):
@@ -128,7 +137,7 @@ class Inst:
         return self.last_tensors
 
 
-def instances(rng, dtype=torch.float64, batch=(), n=3, psd=False, depth=1, classes=None):
+def instances(rng, dtype=torch.float64, batch=(), n=3, psd=False, depth=1, classes=None, extra=False):
     """Representative instances of every operator class (and, with depth=2, nestings).
     `batch` is the operator's batch shape, `n` the basic size (some classes use n, 2n, n*n...)."""
     import linear_operator.operators as O
@@ -294,6 +303,143 @@ def instances(rng, dtype=torch.float64, batch=(), n=3, psd=False, depth=1, class
             add("Masked(Kronecker)", lambda c, a=K1, b=K2, r=torch.tensor([True, False] * n), q=torch.tensor([True] * n + [False, True] * (n // 2) + [True] * (n % 2)):
                 (lambda s, t: (MaskedLinearOperator(KroneckerProductLinearOperator(s, t), r.clone(), q.clone()), kron(a, b)[..., r, :][..., :, q], [s, t]))(c(a), c(b)), tags=("rect",))
             add("ConstantMul(Sum)", lambda c, a=A, b=B, k=kn: (lambda s, t, u: (ConstantMulLinearOperator(SumLinearOperator(DenseLinearOperator(s), DenseLinearOperator(t)), u), (a + b) * k.unsqueeze(-1).unsqueeze(-1), [s, t, u]))(c(a), c(b), c(k)))
+    # ---- extra variants (opt-in: `extra=True`; includes instances that hit known defects, tagged "defect:<id>") ----
+    if extra and not psd:
+        Uu = L.mT.clone()
+        add("Chol[upper]", lambda c, U=Uu: (lambda t: (CholLinearOperator(TriangularLinearOperator(t, upper=True), upper=True), U.mT @ U, [t]))(c(U)), tags=("defect:D01",))
+        UM = _user_minimal_class()
+        add("UserMinimal", lambda c, A=A: (lambda t: (UM(t), A, [t]))(c(A)))
+        Rw = ri(rng, (*batch, n, n + 2), dtype=dtype)
+        add("UserMinimal[wide]", lambda c, R=Rw: (lambda t: (UM(t), R, [t]))(c(R)), tags=("rect",))
+        add("UserMinimal[tall]", lambda c, R=Rw: (lambda t: (UM(t.mT), R.mT, [t]))(c(R)), tags=("rect",))
+        from linear_operator.operators import KeOpsLinearOperator
+        Xk, Yk = ri(rng, (*batch, n, 2), -2, 2, dtype), ri(rng, (*batch, n + 1, 2), -2, 2, dtype)
+        add("KeOps", lambda c, x=Xk, y=Yk: (lambda s, t: (KeOpsLinearOperator(s, t, poly_kernel), x @ y.mT, [s, t]))(c(x), c(y)), tags=("rect",))
+        add("KeOps[params]", lambda c, x=Xk, y=Yk: (lambda s, t: (KeOpsLinearOperator(s, t, poly_kernel, c=2.0), x @ y.mT + 2.0, [s, t]))(c(x), c(y)), tags=("rect", "defect:keops-params"))
+        C3a, C3b, C3c = ri(rng, (*batch, 1, n), dtype=dtype), ri(rng, (*batch, n, n), dtype=dtype), ri(rng, (*batch, 2, n), dtype=dtype)
+        add("Cat[rows3]", lambda c, a=C3a, b=C3b, e=C3c: (lambda s, t, u: (CatLinearOperator(DenseLinearOperator(s), DenseLinearOperator(t), DenseLinearOperator(u), dim=-2),
+                                                                      torch.cat([a, b, e], -2), [s, t, u]))(c(a), c(b), c(e)), tags=("rect",))
+        add("Cat[cols3]", lambda c, a=C3a, b=C3b, e=C3c: (lambda s, t, u: (CatLinearOperator(DenseLinearOperator(s.mT), DenseLinearOperator(t.mT), DenseLinearOperator(u.mT), dim=-1),
+                                                                      torch.cat([a.mT, b.mT, e.mT], -1), [s, t, u]))(c(a), c(b), c(e)), tags=("rect",))
+        Q1, Q2, Q3 = ri(rng, (*batch, 1, 1), 1, 3, dtype), ri(rng, (*batch, n, 2), dtype=dtype), ri(rng, (*batch, 1, 2), dtype=dtype)
+        add("Kronecker[1x1,rect,row]", lambda c, a=Q1, b=Q2, e=Q3: (lambda s, t, u: (KroneckerProductLinearOperator(s, t, u), kron(kron(a, b), e), [s, t, u]))(c(a), c(b), c(e)), tags=("rect",))
+        S1, S2, S3 = ri(rng, (*batch, 2, 2), dtype=dtype), ri(rng, (*batch, n, n), dtype=dtype), ri(rng, (*batch, 2, 2), dtype=dtype)
+        add("Kronecker[sq3]", lambda c, a=S1, b=S2, e=S3: (lambda s, t, u: (KroneckerProductLinearOperator(s, t, u), kron(kron(a, b), e), [s, t, u]))(c(a), c(b), c(e)))
+        Br = ri(rng, (*batch, 3, n, n + 1), dtype=dtype)
+        add("BlockDiag[k3]", lambda c, a=Br[..., :n].clone(): (lambda t: (BlockDiagLinearOperator(DenseLinearOperator(t)), block_diag_dense(a), [t]))(c(a)))
+        add("BlockInterleaved[rect,k3]", lambda c, a=Br: (lambda t: (BlockInterleavedLinearOperator(DenseLinearOperator(t)), block_interleaved_dense(a), [t]))(c(a)), tags=("rect",))
+        add("SumBatch[rect,k3]", lambda c, a=Br: (lambda t: (SumBatchLinearOperator(DenseLinearOperator(t)), a.sum(-3), [t]))(c(a)), tags=("rect",))
+        add("BlockDiag[k1]", lambda c, a=Br[..., :1, :, :n].clone(): (lambda t: (BlockDiagLinearOperator(DenseLinearOperator(t)), block_diag_dense(a), [t]))(c(a)))
+        Rr2 = ri(rng, (*batch, n, n + 1), dtype=dtype)
+        rep3 = (3,) if not batch else (3,) + (1,) * (len(batch) - 1) + (2,)
+        add("BatchRepeat[rect]", lambda c, a=Rr2: (lambda t: (BatchRepeatLinearOperator(DenseLinearOperator(t), batch_repeat=torch.Size(rep)), a.repeat(*rep, 1, 1), [t]))(c(a)), tags=("rect",))
+        add("BatchRepeat[rep3]", lambda c, a=A: (lambda t: (BatchRepeatLinearOperator(DenseLinearOperator(t), batch_repeat=torch.Size(rep3)), a.repeat(*rep3, 1, 1), [t]))(c(a)))
+        di = torch.tensor([[rng.randrange(nb)] * 2 + [rng.randrange(nb)] for _ in range(n)]).expand(*batch, n, 3).contiguous()
+        dv = ri(rng, (*batch, n, 3), -2, 2, dtype)
+        Gd = ri(rng, (*batch, nb, nb), dtype=dtype)
+        add("Interpolated[dup]", lambda c, a=Gd, i=di, v=dv: (lambda s, t: (InterpolatedLinearOperator(DenseLinearOperator(s), i.clone(), t, i.clone(), t.clone()),
+                                                                        interp_matrix(i, v, nb) @ a @ interp_matrix(i, v, nb).mT, [s, t]))(c(a), c(v)))
+        add("Interpolated[default-right]", lambda c, a=Gd, i=di, v=dv: (lambda s, t: (InterpolatedLinearOperator(DenseLinearOperator(s), i.clone(), t),
+                                                                                  interp_matrix(i, v, nb) @ a, [s, t]))(c(a), c(v)), tags=("rect",))
+        add("LowRankRootAddedDiag[const]", lambda c, r=Rr, e=cv: (lambda s, t: (LowRankRootAddedDiagLinearOperator(LowRankRootLinearOperator(s), ConstantDiagLinearOperator(t, diag_shape=n)),
+                                                                            r @ r.mT + e.unsqueeze(-1) * eye(n), [s, t]))(c(r), c(e)), True)
+        add("Root(Kronecker)", lambda c, a=G1 if n else None, b=G2: (lambda s, t: (RootLinearOperator(KroneckerProductLinearOperator(s, t)), kron(a, b) @ kron(a, b).mT, [s, t]))(c(a), c(b)))
+        add("Sum3", lambda c, a=A, b=B, e=dn: (lambda s, t, u: (SumLinearOperator(DenseLinearOperator(s), DenseLinearOperator(t), DiagLinearOperator(u)), a + b + torch.diag_embed(e), [s, t, u]))(c(a), c(b), c(e)))
+        add("Mul(Root,Dense-root)", lambda c, a=R1, b=Bpsd: (lambda s, t: (MulLinearOperator(RootLinearOperator(s), DenseLinearOperator(t)), (a @ a.mT) * b, [s, t]))(c(a), c(b)), tags=("fft",))  # root of the dense factor via Cholesky: toleranced
+    return out
+
+
+_UM = []
+
+
+def _user_minimal_class():
+    """A user subclass that supplies only multiplication, size and transpose."""
+    if _UM:
+        return _UM[0]
+    from linear_operator.operators import LinearOperator
+
+    class UserMinimalOperator(LinearOperator):
+        def __init__(self, mat):
+            super().__init__(mat)
+            self.mat = mat
+
+        def _matmul(self, rhs):
+            return self.mat.matmul(rhs)
+
+        def _size(self):
+            return self.mat.shape
+
+        def _transpose_nonbatch(self):
+            return UserMinimalOperator(self.mat.mT)
+
+    _UM.append(UserMinimalOperator)
+    return UserMinimalOperator
+
+
+def wrap(rng, it, dtype, kinds=None):
+    """Depth+1 nestings: every constructor that accepts a sub-operator, applied to instance `it`.
+    Returns a list of Inst whose `.dense` is computed from `it.dense` with plain torch."""
+    from linear_operator.operators import (
+        AddedDiagLinearOperator, BatchRepeatLinearOperator, BlockDiagLinearOperator, BlockInterleavedLinearOperator,
+        CatLinearOperator, ConstantMulLinearOperator, DenseLinearOperator, DiagLinearOperator, InterpolatedLinearOperator,
+        KroneckerProductLinearOperator, MaskedLinearOperator, MatmulLinearOperator, RootLinearOperator, SumBatchLinearOperator,
+        SumLinearOperator,
+    )
+    D = it.dense
+    *batch, M, N = D.shape
+    batch = tuple(batch)
+    dt = D.dtype
+    out = []
+    tags = tuple(t for t in it.tags if t.startswith("defect:") or t in ("fft", "f32only", "nobatch"))
+
+    def add(kind, make, extra_tags=()):
+        if kinds is not None and kind not in kinds:
+            return
+        try:
+            out.append(Inst(f"{kind}({it.name})", make, tags=tags + tuple(extra_tags)))
+        except Exception as e:  # constructor refuses this nesting: record it
+            out.append(("ctor-error", f"{kind}({it.name})", f"{type(e).__name__}: {e}"[:200]))
+
+    def sub(c):
+        return it.build(c), list(it.last_tensors)
+
+    k = ri(rng, batch, -3, -1, dt)
+    add("ConstantMul", lambda c: (lambda o, t: (ConstantMulLinearOperator(o[0], t), D * k.unsqueeze(-1).unsqueeze(-1), o[1] + [t]))(sub(c), c(k)))
+    E = ri(rng, (*batch, M, N), dtype=dt)
+    add("Sum", lambda c: (lambda o, t: (SumLinearOperator(o[0], DenseLinearOperator(t)), D + E, o[1] + [t]))(sub(c), c(E)))
+    add("SumRev", lambda c: (lambda o, t: (SumLinearOperator(DenseLinearOperator(t), o[0]), D + E, o[1] + [t]))(sub(c), c(E)))
+    F = ri(rng, (*batch, N, 2), dtype=dt)
+    add("MatmulL", lambda c: (lambda o, t: (MatmulLinearOperator(o[0], DenseLinearOperator(t)), D @ F, o[1] + [t]))(sub(c), c(F)), ("rect",))
+    Gm = ri(rng, (*batch, 2, M), dtype=dt)
+    add("MatmulR", lambda c: (lambda o, t: (MatmulLinearOperator(DenseLinearOperator(t), o[0]), Gm @ D, o[1] + [t]))(sub(c), c(Gm)), ("rect",))
+    rm = torch.tensor([rng.random() < 0.6 for _ in range(M - 1)] + [True])
+    cm = torch.tensor([True] + [rng.random() < 0.6 for _ in range(N - 1)])
+    add("Masked", lambda c: (lambda o: (MaskedLinearOperator(o[0], rm.clone(), cm.clone()), D[..., rm, :][..., :, cm], o[1]))(sub(c)), ("rect",))
+    rep = (2,) + (1,) * len(batch)
+    add("BatchRepeat", lambda c: (lambda o: (BatchRepeatLinearOperator(o[0], batch_repeat=torch.Size(rep)), D.repeat(*rep, 1, 1), o[1]))(sub(c)))
+    li = torch.tensor([[rng.randrange(M) for _ in range(2)] for _ in range(3)]).expand(*batch, 3, 2).contiguous()
+    lv = ri(rng, (*batch, 3, 2), -2, 2, dt)
+    rix = torch.tensor([[rng.randrange(N) for _ in range(2)] for _ in range(2)]).expand(*batch, 2, 2).contiguous()
+    rv = ri(rng, (*batch, 2, 2), -2, 2, dt)
+    add("Interpolated", lambda c: (lambda o, t, u: (InterpolatedLinearOperator(o[0], li.clone(), t, rix.clone(), u),
+                                                   interp_matrix(li, lv, M) @ D @ interp_matrix(rix, rv, N).mT, o[1] + [t, u]))(sub(c), c(lv), c(rv)), ("rect",))
+    H = ri(rng, (*batch, 2, N), dtype=dt)
+    add("CatRows", lambda c: (lambda o, t: (CatLinearOperator(o[0], DenseLinearOperator(t), dim=-2), torch.cat([D, H], -2), o[1] + [t]))(sub(c), c(H)), ("rect",))
+    Hc = ri(rng, (*batch, M, 2), dtype=dt)
+    add("CatCols", lambda c: (lambda o, t: (CatLinearOperator(DenseLinearOperator(t), o[0], dim=-1), torch.cat([Hc, D], -1), o[1] + [t]))(sub(c), c(Hc)), ("rect",))
+    if M == N:
+        dd = ri(rng, (*batch, N), 1, 3, dt)
+        add("AddedDiag", lambda c: (lambda o, t: (AddedDiagLinearOperator(o[0], DiagLinearOperator(t)), D + torch.diag_embed(dd), o[1] + [t]))(sub(c), c(dd)))
+    Kf = ri(rng, (*batch, 2, 2), dtype=dt)
+    add("KroneckerL", lambda c: (lambda o, t: (KroneckerProductLinearOperator(o[0], DenseLinearOperator(t)), kron(D, Kf), o[1] + [t]))(sub(c), c(Kf)))
+    add("KroneckerR", lambda c: (lambda o, t: (KroneckerProductLinearOperator(DenseLinearOperator(t), o[0]), kron(Kf, D), o[1] + [t]))(sub(c), c(Kf)))
+    add("Root", lambda c: (lambda o: (RootLinearOperator(o[0]), D @ D.mT, o[1]))(sub(c)))
+    add("Transpose", lambda c: (lambda o: (o[0].mT, D.mT.contiguous(), o[1]))(sub(c)))
+    if len(batch) >= 1:
+        if M == N:
+            add("BlockDiag", lambda c: (lambda o: (BlockDiagLinearOperator(o[0]), block_diag_dense(D), o[1]))(sub(c)))
+        add("BlockInterleaved", lambda c: (lambda o: (BlockInterleavedLinearOperator(o[0]), block_interleaved_dense(D), o[1]))(sub(c)))
+        add("SumBatch", lambda c: (lambda o: (SumBatchLinearOperator(o[0]), D.sum(-3), o[1]))(sub(c)))
     return out
 
 
